@@ -1,7 +1,10 @@
 pub mod c01;
+pub mod c03;
 pub mod c04;
+pub mod c07;
 pub mod c09;
 pub mod c10;
+pub mod c11;
 pub mod c12;
 pub mod c13;
 pub mod c14;
@@ -11,9 +14,12 @@ use crate::report::CaseOut;
 pub fn plan(prop: &str, tier: &str) -> Option<u64> {
     Some(match prop {
         "C01" => c01::plan(tier),
+        "C03" => c03::plan(tier),
         "C04" => c04::plan(tier),
+        "C07" => c07::plan(tier),
         "C09" => c09::plan(tier),
         "C10" => c10::plan(tier),
+        "C11" => c11::plan(tier),
         "C12" => c12::plan(tier),
         "C13" => c13::plan(tier),
         "C14" => c14::plan(tier),
@@ -24,9 +30,12 @@ pub fn plan(prop: &str, tier: &str) -> Option<u64> {
 pub fn run_case(prop: &str, tier: &str, seed: u64, idx: u64) -> CaseOut {
     match prop {
         "C01" => c01::run_case(tier, seed, idx),
+        "C03" => c03::run_case(tier, seed, idx),
         "C04" => c04::run_case(tier, seed, idx),
+        "C07" => c07::run_case(tier, seed, idx),
         "C09" => c09::run_case(tier, seed, idx),
         "C10" => c10::run_case(tier, seed, idx),
+        "C11" => c11::run_case(tier, seed, idx),
         "C12" => c12::run_case(tier, seed, idx),
         "C13" => c13::run_case(tier, seed, idx),
         "C14" => c14::run_case(tier, seed, idx),
